@@ -48,15 +48,24 @@ func RunPlugin(bin, dir string, req *plugin.CodeGeneratorRequest) *PluginResult 
 	if err != nil {
 		return &PluginResult{Exit: -1, Err: err.Error()}
 	}
-	ctx, cancel := context.WithTimeout(context.Background(), 60*time.Second)
-	defer cancel()
-	cmd := exec.CommandContext(ctx, bin)
-	cmd.Dir = dir
-	cmd.Stdin = bytes.NewReader(data)
+	// a run that exceeds its time limit on a loaded machine is repeated with a longer one before it counts as the plugin's answer
 	var so, se bytes.Buffer
-	cmd.Stdout = &so
-	cmd.Stderr = &se
-	err = cmd.Run()
+	for _, limit := range []time.Duration{60 * time.Second, 300 * time.Second} {
+		so.Reset()
+		se.Reset()
+		ctx, cancel := context.WithTimeout(context.Background(), limit)
+		cmd := exec.CommandContext(ctx, bin)
+		cmd.Dir = dir
+		cmd.Stdin = bytes.NewReader(data)
+		cmd.Stdout = &so
+		cmd.Stderr = &se
+		err = cmd.Run()
+		timedOut := ctx.Err() != nil
+		cancel()
+		if !timedOut {
+			break
+		}
+	}
 	res := &PluginResult{Stdout: so.Bytes(), Stderr: se.Bytes()}
 	if err != nil {
 		if ee, ok := err.(*exec.ExitError); ok {
